@@ -1,4 +1,7 @@
 mod ast;
+mod bashrun;
+mod refrun;
+mod traces;
 mod binrun;
 mod lex;
 mod auto;
@@ -40,6 +43,7 @@ fn main() {
         }
     };
     let rep = match args[1].as_str() {
+        "C01" => props::c01::run(tier),
         "C02" => props::c02::run(tier),
         "C03" => props::c03::run(tier),
         "C05" => props::c05::run(tier),
